@@ -111,7 +111,7 @@ func init() {
 		"vAtomic": func(fr *frame, args []Value) Value {
 			ex := fr.ex
 			g := fr.gor()
-			ex.rt.visible(g, &pendingOp{kind: opGlobal})
+			ex.rt.visible(g, &pendingOp{kind: opGhost})
 			g.pending = nil
 			g.atomic++
 			defer func() { g.atomic-- }()
